@@ -50,3 +50,90 @@ package astisub
 //@   loop 1: invariant forall k, m int :: 0 <= k && k < j && !alive(k) && 0 <= m && m < len(s.Items) ==> s.Items[m] != O(k)
 //@   loop 1: decreases len(s.Items) - idx
 //@ end
+
+// ---------------------------------------------------------------------------
+// C14  Duration, (*Subtitles).ForceDuration
+// ---------------------------------------------------------------------------
+
+//@ pred byStart(s *Subtitles) = forall k, m int :: 0 <= k && k < m && m < len(s.Items) ==> s.Items[k].StartAt <= s.Items[m].StartAt
+//@ pred byEnd(s *Subtitles) = forall k, m int :: 0 <= k && k < m && m < len(s.Items) ==> s.Items[k].EndAt <= s.Items[m].EndAt
+
+//@ func (s Subtitles) Duration() time.Duration
+//@   prop C14
+//@   requires nonNil(s)
+//@   ensures [empty] len(s.Items) == 0 ==> result == 0
+//@   ensures [last] len(s.Items) > 0 ==> result == s.Items[len(s.Items)-1].EndAt
+//@   assigns nothing
+//@ end
+
+//@ func (s *Subtitles) ForceDuration(d time.Duration, addDummyItem bool)
+//@   prop C14
+//@   requires wfItems(s) && wellTimed(s) && byStart(s) && byEnd(s) && bounded(s) && d >= 1000000 && boundedD(d)
+//@   ghostfun opaque O(k int) *Item = old(s.Items[k])
+//@   ghostfun opaque E0(k int) time.Duration = old(s.Items[k].EndAt)
+//@   ghostfun opaque S0(k int) time.Duration = old(s.Items[k].StartAt)
+//@   ghostfun oldDur() time.Duration = old(len(s.Items)) == 0 ? 0 : E0(old(len(s.Items)) - 1)
+//@   ghostfun fill() bool = addDummyItem && oldDur() != d && (forall k int :: 0 <= k && k < old(len(s.Items)) && S0(k) < d ==> E0(k) < d)
+//@   lemma oFacts(k int) : 0 <= k && k < old(len(s.Items)) ==> O(k) != nil && S0(k) <= E0(k)
+//@   lemma oDistinct(a int, b int) : 0 <= a && a < b && b < old(len(s.Items)) ==> O(a) != O(b) && S0(a) <= S0(b) && E0(a) <= E0(b)
+//@   ensures [unchanged] oldDur() == d ==> len(s.Items) == old(len(s.Items)) && arr(s.Items) == old(arr(s.Items)) && off(s.Items) == old(off(s.Items)) && (forall k int :: 0 <= k && k < old(len(s.Items)) ==> s.Items[k] == O(k) && O(k).EndAt == E0(k) && O(k).StartAt == S0(k))
+//@   ensures [kept] oldDur() != d ==> forall k int :: 0 <= k && k < old(len(s.Items)) && S0(k) < d ==> k < len(s.Items) && s.Items[k] == O(k) && O(k).StartAt == S0(k) && O(k).EndAt == min(E0(k), d)
+//@   ensures [cut-nofill] oldDur() != d && !fill() ==> len(s.Items) <= old(len(s.Items)) && (forall k int :: 0 <= k && k < old(len(s.Items)) ==> (k < len(s.Items) <==> S0(k) < d))
+//@   ensures [cut-fill] oldDur() != d && fill() ==> 1 <= len(s.Items) && len(s.Items) - 1 <= old(len(s.Items)) && (forall k int :: 0 <= k && k < old(len(s.Items)) ==> (k < len(s.Items) - 1 <==> S0(k) < d))
+//@   ensures [filler] fill() ==> fresh(s.Items[len(s.Items)-1]) && s.Items[len(s.Items)-1].StartAt == d - 1000000 && s.Items[len(s.Items)-1].EndAt == d && len(s.Items[len(s.Items)-1].Lines) == 1 && len(s.Items[len(s.Items)-1].Lines[0].Items) == 1 && s.Items[len(s.Items)-1].Lines[0].Items[0].Text == "..."
+//@   ensures [duration] addDummyItem ==> len(s.Items) > 0 && s.Items[len(s.Items)-1].EndAt == d
+//@   ensures [starts] forall k int :: 0 <= k && k < old(len(s.Items)) ==> O(k).StartAt == S0(k)
+//@   assigns s.Items, Item.EndAt, elemsof(*Item)
+//@   loop 1: invariant lastIndex == 0 - 1
+//@   loop 1: invariant forall k int :: 0 <= k && k < index ==> S0(k) < d && O(k).EndAt == min(E0(k), d)
+//@   loop 1: invariant forall k int :: index <= k && k < old(len(s.Items)) ==> O(k).EndAt == E0(k)
+//@ end
+
+// ---------------------------------------------------------------------------
+// C12  (*Subtitles).Order, (*Subtitles).Merge
+// ---------------------------------------------------------------------------
+
+//@ func (s *Subtitles) Order()
+//@   prop C12
+//@   requires s != nil && nonNil(s)
+//@   ghostout pi(k int) int
+//@   ghostout pinv(k int) int
+//@   ensures [header] len(s.Items) == old(len(s.Items)) && arr(s.Items) == old(arr(s.Items)) && off(s.Items) == old(off(s.Items)) && cap(s.Items) == old(cap(s.Items))
+//@   ensures [perm] forall k int :: {pi(k)} 0 <= k && k < len(s.Items) ==> 0 <= pi(k) && pi(k) < len(s.Items) && s.Items[k] == old(s.Items[pi(k)]) && pinv(pi(k)) == k
+//@   ensures [perm-inv] forall k int :: {pinv(k)} 0 <= k && k < len(s.Items) ==> 0 <= pinv(k) && pinv(k) < len(s.Items) && pi(pinv(k)) == k
+//@   ensures [sorted] forall i, j int :: 0 <= i && i < j && j < len(s.Items) ==> s.Items[i].StartAt <= s.Items[j].StartAt
+//@   ensures [stable] forall i, j int :: {pi(i), pi(j)} 0 <= i && i < j && j < len(s.Items) && s.Items[i].StartAt == s.Items[j].StartAt ==> pi(i) < pi(j)
+//@   ensures [window] forall m int :: m < off(s.Items) || m >= off(s.Items) + len(s.Items) ==> rawelem(s.Items, m) == old(rawelem(s.Items, m))
+//@   assigns elems(s.Items)
+//@   witness return 1: pi(k) = k
+//@   witness return 1: pinv(k) = k
+//@   witness pi(k) = sort$pi(k)
+//@   witness pinv(k) = sort$pinv(k)
+//@ end
+
+//@ pred wfRegionKeys(s *Subtitles) = forall id string :: has(s.Regions, id) ==> s.Regions[id] != nil && s.Regions[id].ID == id
+//@ pred wfStyleKeys(s *Subtitles) = forall id string :: has(s.Styles, id) ==> s.Styles[id] != nil && s.Styles[id].ID == id
+
+//@ func (s *Subtitles) Merge(i *Subtitles)
+//@   prop C12
+//@   requires s != nil && i != nil && s != i && nonNil(s) && nonNil(i)
+//@   requires arr(s.Items) != arr(i.Items) || len(i.Items) == 0
+//@   requires wfRegionKeys(i) && wfStyleKeys(i)
+//@   requires (s.Regions != i.Regions || s.Regions == nil) && (s.Styles != i.Styles || s.Styles == nil)
+//@   ghostfun opaque src(x int) *Item = x < old(len(s.Items)) ? old(s.Items[x]) : old(i.Items[x - len(s.Items)])
+//@   ghostout pi(k int) int
+//@   ghostout pinv(k int) int
+//@   ensures [len] len(s.Items) == old(len(s.Items)) + old(len(i.Items))
+//@   ensures [perm] forall k int :: {pi(k)} 0 <= k && k < len(s.Items) ==> 0 <= pi(k) && pi(k) < len(s.Items) && s.Items[k] == src(pi(k)) && pinv(pi(k)) == k
+//@   ensures [perm-inv] forall k int :: {pinv(k)} 0 <= k && k < len(s.Items) ==> 0 <= pinv(k) && pinv(k) < len(s.Items) && pi(pinv(k)) == k
+//@   ensures [sorted] forall a, b int :: 0 <= a && a < b && b < len(s.Items) ==> s.Items[a].StartAt <= s.Items[b].StartAt
+//@   ensures [stable] forall a, b int :: {pi(a), pi(b)} 0 <= a && a < b && b < len(s.Items) && s.Items[a].StartAt == s.Items[b].StartAt ==> pi(a) < pi(b)
+//@   ensures [regions] forall id string :: (old(has(s.Regions, id)) ==> has(s.Regions, id) && s.Regions[id] == old(s.Regions[id])) && (!old(has(s.Regions, id)) ==> (has(s.Regions, id) <==> has(i.Regions, id)) && (has(i.Regions, id) ==> s.Regions[id] == i.Regions[id]))
+//@   ensures [styles] forall id string :: (old(has(s.Styles, id)) ==> has(s.Styles, id) && s.Styles[id] == old(s.Styles[id])) && (!old(has(s.Styles, id)) ==> (has(s.Styles, id) <==> has(i.Styles, id)) && (has(i.Styles, id) ==> s.Styles[id] == i.Styles[id]))
+//@   ensures [B-items] len(i.Items) == old(len(i.Items)) && arr(i.Items) == old(arr(i.Items)) && off(i.Items) == old(off(i.Items)) && (forall k int :: 0 <= k && k < len(i.Items) ==> i.Items[k] == old(i.Items[k]))
+//@   assigns s.Items, s.Regions, s.Styles, elems(s.Items), entries(s.Regions), entries(s.Styles)
+//@   witness pi(k) = Order$pi(k)
+//@   witness pinv(k) = Order$pinv(k)
+//@   loop 1: invariant forall id string :: (old(has(s.Regions, id)) ==> has(s.Regions, id) && s.Regions[id] == old(s.Regions[id])) && (!old(has(s.Regions, id)) ==> (has(s.Regions, id) <==> (has(i.Regions, id) && visited(1, id))) && (has(s.Regions, id) ==> s.Regions[id] == i.Regions[id]))
+//@   loop 2: invariant forall id string :: (old(has(s.Styles, id)) ==> has(s.Styles, id) && s.Styles[id] == old(s.Styles[id])) && (!old(has(s.Styles, id)) ==> (has(s.Styles, id) <==> (has(i.Styles, id) && visited(2, id))) && (has(s.Styles, id) ==> s.Styles[id] == i.Styles[id]))
+//@ end
